@@ -25,3 +25,19 @@ func init() {
 		return "ok\t" + esc(text)
 	}
 }
+
+func init() {
+	// buildrun <names;...> <file name> <text>  ->  ok <text> | err
+	// The same chain through builder.Run, as cli.Build does, with the builders registered first: several builds with
+	// different task sets in one process (what a test driver or a packaging script that loops over configurations does).
+	suites["buildrun"] = func(f []string) string {
+		builder.VerifReset()
+		builder.Register(unescList(f[0])...)
+		text, err := builder.Run(prebuild.RootApparmord.Join(unesc(f[1])), unesc(f[2]))
+		builder.VerifReset()
+		if err != nil {
+			return "err\tapply"
+		}
+		return "ok\t" + esc(text)
+	}
+}
